@@ -184,9 +184,15 @@ func runHparse(toks []string) (string, string) {
 		text += "\r\n"
 	}
 	wf2, nf2, err2, _, p2 := parseOnce([]byte(text), policy, false, 0)
+	// the recorded known finding: a decoded encoded-word left CR, LF or another "=?" inside a
+	// parsed name or value; every other failure of the fixpoint is a new violation
 	kind := "not-fixpoint"
-	if strings.Contains(string(data), "=?") {
-		kind = "encoded-word"
+	for _, nv := range *res.wf {
+		if strings.ContainsAny(nv.Name+nv.Value, "\r\n") || strings.Contains(nv.Name+nv.Value, "=?") {
+			if strings.Contains(string(data), "=?") {
+				kind = "encoded-word"
+			}
+		}
 	}
 	switch {
 	case p2 != "":
